@@ -9,7 +9,9 @@
 -/
 import RtoscModel.Proofs.ScanList
 import RtoscModel.Proofs.ScanTokens2
+import RtoscModel.Proofs.ScanTokensHex
 import RtoscModel.Proofs.ScanRep
+import RtoscModel.Proofs.ScanArray
 namespace Rtosc.Pretty.C11
 open Rtosc Rtosc.Libc Rtosc.Pretty
 open Rtosc.ArgVal (Cell Item flatList)
@@ -25,6 +27,9 @@ def blobSeps (bl : List Nat → Blank) : Nat → Bytes → List (Bytes × UInt8)
     `bl`: the blanks the layout puts inside the value) -/
 def Tok.proved (bl : List Nat → Blank) : Tok → Bool
   | .int _ .dec _ => true                           -- 42  -42  42i
+  | .int _ .hex false => true                       -- 0x2a  -0x2a
+  | .int _ .hexUp false => true                     -- 0x2A
+  | .int _ .hex2c false => true                     -- 0xffffffd6 (two's complement of -42)
   | .huge _ .dec => true                            -- 42h
   | .chr _ _ => true                                -- 'x'  '\n'  '\''  '\\'  '\0'
   | .str _ _ => true                                -- "…" with every escape sequence, "…"S, and any
@@ -74,6 +79,27 @@ theorem seg_part (p : List StrCh) (h : p.all StrCh.ok = true) :
       have := Seg.esc ((asEscapedChar c false).getD 63) _ _ h0 ih'
       rw [hv] at this
       simpa [StrCh.text, StrCh.value] using this
+
+theorem upper_hex_char (c : UInt8) (h : isxdigit c = true) : isxdigit (toupper c) = true ∧ xval (toupper c) = xval c := by
+  revert h; revert c; apply UInt8.forall_of_fin; decide +kernel
+
+/-- upper-case hexadecimal digits: the same number -/
+theorem upper_hex (ds : Bytes) (h : ∀ c ∈ ds, isxdigit c = true) :
+    (∀ c ∈ ds.map toupper, isxdigit c = true) ∧ digitsVal 16 (ds.map toupper) = digitsVal 16 ds := by
+  refine ⟨?_, ?_⟩
+  · intro c hc
+    simp only [List.mem_map] at hc
+    obtain ⟨x, hx, rfl⟩ := hc
+    exact (upper_hex_char x (h x hx)).1
+  · unfold digitsVal
+    suffices ∀ a : Nat, List.foldl (fun v c => v * 16 + xval c) a (ds.map toupper) =
+        List.foldl (fun v c => v * 16 + xval c) a ds from this 0
+    induction ds with
+    | nil => intro a; rfl
+    | cons c r ih =>
+      intro a
+      simp only [List.map_cons, List.foldl_cons, (upper_hex_char c (h c (by simp))).2]
+      exact ih (fun x hx => h x (by simp [hx])) _
 
 theorem isspace_blank (b : Blank) : ∀ c ∈ blankBytes b, isspace c = true := by
   intro c hc
@@ -151,11 +177,57 @@ theorem valOK_tok (bl : List Nat → Blank) (t : Tok) (hwf : t.wf = true) (hp : 
     ValOK (t.text bl) t.cell := by
   cases t with
   | int v base sfx =>
-    cases base <;> simp [Tok.proved] at hp
     simp only [Tok.wf, Bool.and_eq_true, decide_eq_true_eq] at hwf
-    cases sfx with
-    | false => simpa [Tok.text, Tok.cell, intText_dec] using valOK_int v hwf.1 hwf.2
-    | true => simpa [Tok.text, Tok.cell, intText_dec] using valOK_int_i v hwf.1 hwf.2
+    cases base with
+    | dec =>
+      cases sfx with
+      | false => simpa [Tok.text, Tok.cell, intText_dec] using valOK_int v hwf.1 hwf.2
+      | true => simpa [Tok.text, Tok.cell, intText_dec] using valOK_int_i v hwf.1 hwf.2
+    | hex =>
+      cases sfx <;> simp [Tok.proved] at hp
+      obtain ⟨d, ds, e, hall, hval⟩ := fmtHex_facts v.natAbs
+      have := valOK_hexText (decide (v < 0)) d ds hall (by rw [hval]; omega)
+      rw [hval, ← e] at this
+      have hv : hexVal (decide (v < 0)) v.natAbs = v := by
+        unfold hexVal toI32
+        by_cases h : v < 0 <;> simp [h] <;> omega
+      rw [hv] at this
+      have ht : (Tok.int v .hex false).text bl = hexText (decide (v < 0)) (fmtHex v.natAbs) := by
+        by_cases h : v < 0 <;> simp [Tok.text, intText, magText, hexText, h]
+      rw [ht]
+      simpa [Tok.cell] using this
+    | hexUp =>
+      cases sfx <;> simp [Tok.proved] at hp
+      obtain ⟨d, ds, e, hall, hval⟩ := fmtHex_facts v.natAbs
+      obtain ⟨hall', hval'⟩ := upper_hex (d :: ds) hall
+      have := valOK_hexText (decide (v < 0)) (toupper d) (ds.map toupper) (by simpa using hall') (by
+        have := hval'; simp only [List.map_cons] at this; rw [this, hval]; omega)
+      have hv2 : digitsVal 16 (toupper d :: ds.map toupper) = v.natAbs := by
+        have := hval'; simp only [List.map_cons] at this; rw [this, hval]
+      rw [hv2] at this
+      have hv : hexVal (decide (v < 0)) v.natAbs = v := by
+        unfold hexVal toI32
+        by_cases h : v < 0 <;> simp [h] <;> omega
+      rw [hv] at this
+      have ht : (Tok.int v .hexUp false).text bl = hexText (decide (v < 0)) (toupper d :: ds.map toupper) := by
+        by_cases h : v < 0 <;> simp [Tok.text, intText, magText, hexText, h, e]
+      rw [ht]
+      simpa [Tok.cell] using this
+    | oct => cases sfx <;> simp [Tok.proved] at hp
+    | hex2c =>
+      cases sfx <;> simp [Tok.proved] at hp
+      obtain ⟨d, ds, e, hall, hval⟩ := fmtHex_facts (v % 4294967296).toNat
+      have := valOK_hexText false d ds hall (by rw [hval]; omega)
+      rw [hval, ← e] at this
+      have hv : hexVal false (v % 4294967296).toNat = v := by
+        unfold hexVal toI32
+        simp
+        omega
+      rw [hv] at this
+      have ht : (Tok.int v .hex2c false).text bl = hexText false (fmtHex (v % 4294967296).toNat) := by
+        simp [Tok.text, intText, magText, hexText]
+      rw [ht]
+      simpa [Tok.cell] using this
   | huge v base =>
     cases base <;> simp [Tok.proved] at hp
     simp only [Tok.wf, Bool.and_eq_true, decide_eq_true_eq] at hwf
@@ -327,76 +399,328 @@ theorem denoteElems_plain (L : Layout) : ∀ (s : Sentence) (i : Nat) (prev : Op
     have := ih (i + 1) (some t.cell) hr
     simp [denoteElems, SVal.denote1, this, valCells]
 
-/-! ### sentences of scalar values and repetitions `nxA` of them -/
+/-! ### values with proved agreement: scalars, `nxA`, arrays (nested) -/
 
-/-- values with proved agreement: a scalar in a proved spelling, or `nxA` with such a scalar `A` -/
-def SVal.proved (bl : List Nat → Blank) : SVal → Prop
-  | .val t => t.wf = true ∧ t.proved bl = true
-  | .rep n (.val t) => 1 ≤ n ∧ n ≤ 2147483647 ∧ t.wf = true ∧ t.proved (sub bl 0) = true
+/-- `A` of `nxA`: a scalar or an array -/
+def SVal.repeatable : SVal → Prop
+  | .val _ => True
+  | .arr _ _ => True
   | _ => False
 
+mutual
+/-- values with proved agreement: a scalar in a proved spelling; `nxA` (1 ≤ n ≤ 2³¹-1) of a
+    scalar or array with proved agreement; an array (without open end) of elements of one type
+    with proved agreement.  `bl`: the blanks the layout puts inside the value. -/
+def SVal.proved (bl : List Nat → Blank) : SVal → Prop
+  | .val t => t.wf = true ∧ t.proved bl = true
+  | .rep n x => 1 ≤ n ∧ n ≤ 2147483647 ∧ x.repeatable ∧ x.proved (sub bl 0)
+  | .range _ _ => False
+  | .arr es opn => opn = false ∧ sameTys es = true ∧ provedElems bl 1 es
+/-- the elements of an array, numbered like `elemsText` -/
+def provedElems (bl : List Nat → Blank) : Nat → List SVal → Prop
+  | _, [] => True
+  | k, x :: r => x.proved (sub bl (2 * k + 5)) ∧ provedElems bl (k + 1) r
+end
+
+/-- the element type an array header records: the type of the last element, `' '` for none -/
+def lastElemTy : List SVal → UInt8
+  | [] => 32
+  | [x] => x.ty
+  | _ :: y :: r => lastElemTy (y :: r)
+
+mutual
 /-- the cells such a value denotes -/
 def SVal.pcells : SVal → List Cell
   | .val t => [t.cell]
-  | .rep n (.val t) => [Cell.rep n 0, t.cell]
-  | _ => []
+  | .rep n x => Cell.rep n 0 :: x.pcells
+  | .range _ _ => [Cell.flag .N]
+  | .arr es _ => Cell.arr (lastElemTy es) (pcellsList es).length :: pcellsList es
+def pcellsList : List SVal → List Cell
+  | [] => []
+  | x :: r => x.pcells ++ pcellsList r
+end
 
-/-- the structured value it denotes, and the left neighbour it provides -/
+mutual
+/-- the structured value it denotes -/
 def SVal.pitem : SVal → Item
   | .val t => .val t.cell
-  | .rep n (.val t) => .rep n (.val t.cell)
-  | _ => .val (Cell.flag .N)
+  | .rep n x => .rep n x.pitem
+  | .range _ _ => .val (Cell.flag .N)
+  | .arr es _ => .arr (lastElemTy es) (pitemsList es)
+def pitemsList : List SVal → List Item
+  | [] => []
+  | x :: r => x.pitem :: pitemsList r
+end
 
-theorem SVal.proved.arg11 {bl : List Nat → Blank} {x : SVal} (h : x.proved bl) : Arg11 (x.text bl) x.pcells := by
+/-- the texts and cells of the elements of an array -/
+def elemArgs (bl : List Nat → Blank) : Nat → List SVal → List (Bytes × List Cell)
+  | _, [] => []
+  | k, x :: r => (x.text (sub bl (2 * k + 5)), x.pcells) :: elemArgs bl (k + 1) r
+
+theorem allWs_blank (b : Blank) : AllWs (blankBytes b) := isspace_blank b
+
+theorem allWs_blank1 (b : Blank) : AllWs (blank1Bytes b) ∧ blank1Bytes b ≠ [] := by
+  unfold blank1Bytes
+  split
+  · exact ⟨by intro c hc; simp at hc; subst hc; decide, by simp⟩
+  · rename_i h
+    refine ⟨isspace_blank b, ?_⟩
+    cases b with
+    | nil => simp at h
+    | cons w r => simp [blankBytes]
+
+theorem allCells_elemArgs (bl : List Nat → Blank) : ∀ (k : Nat) (es : List SVal),
+    allCells (elemArgs bl k es) = pcellsList es := by
+  intro k es
+  induction es generalizing k with
+  | nil => rfl
+  | cons x r ih =>
+    have := ih (k + 1)
+    simp only [allCells] at this
+    simp [elemArgs, pcellsList, allCells, this]
+
+/-- the cell of a scalar spelling is a scalar cell -/
+theorem tok_cell_scalar (t : Tok) : t.cell.isScalar = true := by
+  cases t with
+  | flt dbl sfx l e => cases dbl <;> simp [Tok.cell, ArgVal.Cell.isScalar]
+  | kw k => cases k <;> rfl
+  | str sym parts => cases sym <;> rfl
+  | _ => rfl
+
+theorem proved_unfold_val (bl : List Nat → Blank) (t : Tok) : (SVal.val t).proved bl ↔ (t.wf = true ∧ t.proved bl = true) := by
+  simp [SVal.proved]
+
+theorem proved_unfold_rep (bl : List Nat → Blank) (n : Nat) (x : SVal) :
+    (SVal.rep n x).proved bl ↔ (1 ≤ n ∧ n ≤ 2147483647 ∧ x.repeatable ∧ x.proved (sub bl 0)) := by
+  simp [SVal.proved]
+
+/-- the element type the scanner records for a value with proved agreement is its type -/
+theorem elemTy_pcells (bl : List Nat → Blank) (x : SVal) (h : x.proved bl) : elemTy x.pcells = .ok x.ty := by
   cases x with
   | val t =>
+    have hs := tok_cell_scalar t
+    simp only [SVal.pcells, SVal.ty]
+    generalize t.cell = c at hs
+    cases c <;> simp_all [elemTy, deref, ArgVal.Cell.isScalar, bind, Except.bind, pure, Except.pure]
+  | rep n y =>
+    rw [proved_unfold_rep] at h
+    obtain ⟨_, _, hrep, _⟩ := h
+    cases y with
+    | val t => simp [SVal.pcells, SVal.ty, elemTy, deref, bind, Except.bind, pure, Except.pure]
+    | arr es o => simp [SVal.pcells, SVal.ty, elemTy, deref, bind, Except.bind, pure, Except.pure, ArgVal.Cell.type]
+    | rep _ _ => simp [SVal.repeatable] at hrep
+    | range _ _ => simp [SVal.repeatable] at hrep
+  | range _ _ => simp [SVal.proved] at h
+  | arr es o => simp [SVal.pcells, SVal.ty, elemTy, deref, bind, Except.bind, pure, Except.pure, ArgVal.Cell.type]
+
+/-- the type the checker reports for it: its type, or '-' for `nxA` -/
+theorem skipTy_pcells (bl : List Nat → Blank) (x : SVal) (h : x.proved bl) :
+    skipTy x.pcells = x.ty ∨ skipTy x.pcells = 45 := by
+  cases x with
+  | val t => left; simp [SVal.pcells, SVal.ty, skipTy]
+  | rep n y => right; simp [SVal.pcells, skipTy, ArgVal.Cell.type, ArgVal.tyRange]
+  | range _ _ => simp [SVal.proved] at h
+  | arr es o => left; simp [SVal.pcells, SVal.ty, skipTy, ArgVal.Cell.type]
+
+theorem lastTy_elemArgs (bl : List Nat → Blank) : ∀ (k : Nat) (es : List SVal), provedElems bl k es → es ≠ [] →
+    lastTy 32 (elemArgs bl k es) = lastElemTy es := by
+  intro k es
+  induction es generalizing k with
+  | nil => intro _ h; exact absurd rfl h
+  | cons x r ih =>
+    intro h _
+    simp only [provedElems] at h
+    cases r with
+    | nil => simp [elemArgs, lastTy, lastElemTy, elemTy_pcells _ x h.1]
+    | cons y r' =>
+      have := ih (k + 1) h.2 (by simp)
+      simp only [elemArgs] at this ⊢
+      rw [lastTy_cons _ _ _ (by simp)]
+      simpa [lastElemTy] using this
+
+theorem sameTy_arraytypes (a b : UInt8) (h : sameTy a b = true) : arraytypesMatch a b = true := by
+  have : typesMatch a b = true := by simpa [sameTy, typesMatch] using h
+  simp [arraytypesMatch, this]
+
+theorem elemTypesOK_elemArgs (bl : List Nat → Blank) (k : Nat) (es : List SVal) (h : provedElems bl k es)
+    (hty : sameTys es = true) : ElemTypesOK (elemArgs bl k es) := by
+  cases es with
+  | nil => exact trivial
+  | cons x r =>
+    simp only [provedElems] at h
+    simp only [sameTys, List.all_eq_true] at hty
+    simp only [elemArgs, ElemTypesOK]
+    -- every later element
+    have key : ∀ (k' : Nat) (r : List SVal), provedElems bl k' r → (∀ e ∈ r, sameTy x.ty e.ty = true) →
+        TypesOK (skipTy x.pcells) (elemArgs bl k' r) := by
+      intro k' r
+      induction r generalizing k' with
+      | nil => intro _ _ p hp; simp [elemArgs] at hp
+      | cons y r' ih =>
+        intro hr hs p hp
+        simp only [provedElems] at hr
+        simp only [elemArgs, List.mem_cons] at hp
+        rcases hp with rfl | hp
+        · simp only
+          rcases skipTy_pcells _ x h.1 with hx | hx <;> rcases skipTy_pcells _ y hr.1 with hy | hy
+          · rw [hx, hy]; exact sameTy_arraytypes _ _ (hs y (by simp))
+          · rw [hy]; simp [arraytypesMatch]
+          · rw [hx]; simp [arraytypesMatch]
+          · rw [hx]; simp [arraytypesMatch]
+        · exact ih (k' + 1) hr.2 (fun e he => hs e (by simp [he])) p hp
+    exact key (k + 1) r h.2 hty
+
+mutual
+/-- **every value with proved agreement is a good argument** (structural recursion over the value) -/
+theorem SVal.proved.arg11 : ∀ (bl : List Nat → Blank) (x : SVal), x.proved bl → Arg11 (x.text bl) x.pcells
+  | bl, .val t, h => by
     simp only [SVal.proved] at h
     simpa [SVal.text, SVal.pcells] using (valOK_tok bl t h.1 h.2).arg11
-  | rep n y =>
-    cases y with
-    | val t =>
-      simp only [SVal.proved] at h
-      obtain ⟨h1, h2, hwf, hp⟩ := h
-      have := ((valOK_tok _ t hwf hp).arg11).rep n h1 h2
-      simpa [SVal.text, SVal.pcells, repText, fmtDec_nat] using this
-    | rep _ _ => simp [SVal.proved] at h
-    | range _ _ => simp [SVal.proved] at h
-    | arr _ _ => simp [SVal.proved] at h
-  | range _ _ => simp [SVal.proved] at h
-  | arr _ _ => simp [SVal.proved] at h
+  | bl, .rep n x, h => by
+    simp only [SVal.proved] at h
+    obtain ⟨h1, h2, _, hx⟩ := h
+    have := (SVal.proved.arg11 (sub bl 0) x hx).rep n h1 h2
+    simpa [SVal.text, SVal.pcells, repText, fmtDec_nat] using this
+  | bl, .range _ _, h => by simp [SVal.proved] at h
+  | bl, .arr [] opn, h => by
+    simp only [SVal.proved] at h
+    obtain ⟨hopn, _, _⟩ := h
+    subst hopn
+    have hws : AllWs (blankBytes (bl [0]) ++ blankBytes (bl [4])) := by
+      intro c hc
+      rcases List.mem_append.mp hc with h | h
+      · exact isspace_blank _ c h
+      · exact isspace_blank _ c h
+    have := arg11_array ArrBody.nil _ hws trivial
+    simpa [SVal.text, SVal.pcells, arrText, elemsText, pcellsList, lastElemTy, allCells, lastTy] using this
+  | bl, .arr (x :: r) opn, h => by
+    simp only [SVal.proved] at h
+    obtain ⟨hopn, hty, hes⟩ := h
+    subst hopn
+    have hbody := provedElems.body bl 1 (x :: r) (blankBytes (bl [4])) (by simp) hes (allWs_blank _)
+    have := arg11_array hbody (blankBytes (bl [0])) (allWs_blank _) (elemTypesOK_elemArgs bl 1 (x :: r) hes hty)
+    rw [allCells_elemArgs, lastTy_elemArgs bl 1 (x :: r) hes (by simp)] at this
+    simpa [SVal.text, SVal.pcells, arrText, List.append_assoc] using this
+/-- the elements of an array, followed by the blank in front of `]`, form an `ArrBody` -/
+theorem provedElems.body : ∀ (bl : List Nat → Blank) (k : Nat) (es : List SVal) (w : Bytes), es ≠ [] →
+    provedElems bl k es → AllWs w → ArrBody (elemArgs bl k es) (elemsText bl k es ++ w)
+  | bl, k, [], w, hne, _, _ => absurd rfl hne
+  | bl, k, [x], w, _, h, hw => by
+    simp only [provedElems] at h
+    have := ArrBody.last _ _ w (SVal.proved.arg11 _ x h.1) hw
+    simpa [elemArgs, elemsText] using this
+  | bl, k, x :: y :: r', w, _, h, hw => by
+    simp only [provedElems] at h
+    obtain ⟨hw1, hne1⟩ := allWs_blank1 (bl [2 * k + 6])
+    have hrec := provedElems.body bl (k + 1) (y :: r') w (by simp) ⟨h.2.1, h.2.2⟩ hw
+    have := ArrBody.cons _ _ _ _ _ (SVal.proved.arg11 _ x h.1) hw1 hne1 (by simp [elemArgs]) hrec
+    simpa [elemArgs, elemsText, List.append_assoc] using this
+end
 
-/-- the denotation of a proved value: its item (with the cells as memory layout) -/
-theorem SVal.proved.denote1 {bl : List Nat → Blank} {x : SVal} (h : x.proved bl) :
-    x.pitem.flat = x.pcells ∧
-    ∃ p, ∀ (prev : Option Cell) (r : List SVal),
-      denoteElems false prev (x :: r) = (denoteElems false p r).map (x.pitem :: ·) := by
+/-! ### the denotation of values with proved agreement -/
+
+theorem itemType_pitem (bl : List Nat → Blank) (x : SVal) (h : x.proved bl) : itemType x.pitem = x.ty := by
   cases x with
-  | val t =>
-    refine ⟨by simp [SVal.pitem, SVal.pcells, Rtosc.ArgVal.Item.flat], some t.cell, ?_⟩
-    intro prev r
-    cases hr : denoteElems false (some t.cell) r <;> simp [denoteElems, SVal.denote1, SVal.pitem, hr]
+  | val t => simp [SVal.pitem, itemType, SVal.ty]
   | rep n y =>
+    rw [proved_unfold_rep] at h
+    obtain ⟨_, _, hrep, _⟩ := h
     cases y with
-    | val t =>
-      simp only [SVal.proved] at h
-      obtain ⟨h1, h2, _, _⟩ := h
-      refine ⟨by simp [SVal.pitem, SVal.pcells, Rtosc.ArgVal.Item.flat], some t.cell, ?_⟩
-      intro prev r
-      cases hr : denoteElems false (some t.cell) r <;> simp [denoteElems, SVal.denote1, SVal.pitem, h1, h2, hr]
-    | rep _ _ => simp [SVal.proved] at h
-    | range _ _ => simp [SVal.proved] at h
-    | arr _ _ => simp [SVal.proved] at h
+    | val t => simp [SVal.pitem, itemType, SVal.ty]
+    | arr es o => simp [SVal.pitem, itemType, SVal.ty]
+    | rep _ _ => simp [SVal.repeatable] at hrep
+    | range _ _ => simp [SVal.repeatable] at hrep
   | range _ _ => simp [SVal.proved] at h
-  | arr _ _ => simp [SVal.proved] at h
+  | arr es o => simp [SVal.pitem, itemType, SVal.ty]
+
+theorem lastItemTy_pitems (bl : List Nat → Blank) : ∀ (k : Nat) (es : List SVal), provedElems bl k es →
+    lastItemTy (pitemsList es) = lastElemTy es := by
+  intro k es
+  induction es generalizing k with
+  | nil => intro _; rfl
+  | cons x r ih =>
+    intro h
+    simp only [provedElems] at h
+    cases r with
+    | nil => simp [lastItemTy, pitemsList, lastElemTy, itemType_pitem _ x h.1]
+    | cons y r' =>
+      have := ih (k + 1) h.2
+      simpa [lastItemTy, pitemsList, lastElemTy, List.getLast?_cons_cons] using this
+
+mutual
+/-- the denotation of a value with proved agreement: its item; it provides some left neighbour -/
+theorem SVal.proved.denote1 : ∀ (bl : List Nat → Blank) (x : SVal), x.proved bl →
+    ∃ p, x.denote1 = some (x.pitem, p)
+  | bl, .val t, _ => ⟨some t.cell, by simp [SVal.denote1, SVal.pitem]⟩
+  | bl, .rep n (.val t), h => by
+    rw [proved_unfold_rep] at h
+    exact ⟨some t.cell, by simp [SVal.denote1, SVal.pitem, h.1, h.2.1]⟩
+  | bl, .rep n (.arr es opn), h => by
+    rw [proved_unfold_rep] at h
+    obtain ⟨h1, h2, _, hx⟩ := h
+    simp only [SVal.proved] at hx
+    obtain ⟨hopn, _, hes⟩ := hx
+    subst hopn
+    have hd := provedElems.denote (sub bl 0) 1 es none hes
+    have hl := lastItemTy_pitems (sub bl 0) 1 es hes
+    exact ⟨none, by simp [SVal.denote1, SVal.pitem, h1, h2, hd, hl]⟩
+  | bl, .rep n (.rep _ _), h => by
+    rw [proved_unfold_rep] at h
+    exact absurd h.2.2.1 (by simp [SVal.repeatable])
+  | bl, .rep n (.range _ _), h => by
+    rw [proved_unfold_rep] at h
+    exact absurd h.2.2.1 (by simp [SVal.repeatable])
+  | bl, .range _ _, h => by simp [SVal.proved] at h
+  | bl, .arr es opn, h => by
+    simp only [SVal.proved] at h
+    obtain ⟨hopn, _, hes⟩ := h
+    subst hopn
+    have hd := provedElems.denote bl 1 es none hes
+    have hl := lastItemTy_pitems bl 1 es hes
+    exact ⟨none, by simp [SVal.denote1, SVal.pitem, hd, hl]⟩
+/-- the denotation of the elements of an array / the values of a sentence -/
+theorem provedElems.denote : ∀ (bl : List Nat → Blank) (k : Nat) (es : List SVal) (prev : Option Cell),
+    provedElems bl k es → denoteElems false prev es = some (pitemsList es)
+  | bl, k, [], prev, _ => by simp [denoteElems, pitemsList]
+  | bl, k, .val t :: r, prev, h => by
+    simp only [provedElems] at h
+    have hr := provedElems.denote bl (k + 1) r (some t.cell) h.2
+    simp [denoteElems, SVal.denote1, pitemsList, SVal.pitem, hr]
+  | bl, k, .rep n y :: r, prev, h => by
+    simp only [provedElems] at h
+    obtain ⟨p, hp⟩ := SVal.proved.denote1 _ (.rep n y) h.1
+    have hr := provedElems.denote bl (k + 1) r p h.2
+    simp [denoteElems, hp, pitemsList, hr]
+  | bl, k, .range _ _ :: r, prev, h => by
+    simp only [provedElems, SVal.proved] at h
+    exact absurd h.1 (by simp)
+  | bl, k, .arr es o :: r, prev, h => by
+    simp only [provedElems] at h
+    obtain ⟨p, hp⟩ := SVal.proved.denote1 _ (.arr es o) h.1
+    have hr := provedElems.denote bl (k + 1) r p h.2
+    simp [denoteElems, hp, pitemsList, hr]
+end
+
+mutual
+theorem flat_pitem : ∀ (x : SVal), x.pitem.flat = x.pcells
+  | .val t => by simp [SVal.pitem, SVal.pcells, Rtosc.ArgVal.Item.flat]
+  | .rep n x => by simp [SVal.pitem, SVal.pcells, Rtosc.ArgVal.Item.flat, flat_pitem x]
+  | .range _ _ => by simp [SVal.pitem, SVal.pcells, Rtosc.ArgVal.Item.flat]
+  | .arr es _ => by simp [SVal.pitem, SVal.pcells, Rtosc.ArgVal.Item.flat, flatList_pitems es]
+theorem flatList_pitems : ∀ (es : List SVal), flatList (pitemsList es) = pcellsList es
+  | [] => rfl
+  | x :: r => by simp [pitemsList, pcellsList, flatList, flat_pitem x, flatList_pitems r]
+end
+
+/-! ### sentences of such values -/
 
 /-- all values of the sentence (numbered from `i`) have proved agreement -/
 def provedFrom (L : Layout) : Nat → Sentence → Prop
   | _, [] => True
   | i, x :: r => x.proved (sub L.blank i) ∧ provedFrom L (i + 1) r
 
-def pCells : Sentence → List Cell
-  | [] => []
-  | x :: r => x.pcells ++ pCells r
+/-- the cells of the sentence -/
+def pCells (s : Sentence) : List Cell := pcellsList s
 
 def pArgs (L : Layout) : Nat → Sentence → List (Bytes × List Cell)
   | _, [] => []
@@ -408,8 +732,8 @@ theorem allCells_pArgs (L : Layout) : ∀ (i : Nat) (s : Sentence), allCells (pA
   | nil => rfl
   | cons x r ih =>
     have := ih (i + 1)
-    simp only [allCells] at this
-    simp [pArgs, pCells, allCells, this]
+    simp only [allCells, pCells] at this
+    simp [pArgs, pCells, pcellsList, allCells, this]
 
 theorem argsLay_proved (L : Layout) (tail : Bytes) (htail : Tail tail) :
     ∀ (s : Sentence) (i : Nat), s ≠ [] → provedFrom L i s →
@@ -420,7 +744,7 @@ theorem argsLay_proved (L : Layout) (tail : Bytes) (htail : Tail tail) :
   | cons x r ih =>
     intro i _ hpl
     obtain ⟨hx, hr⟩ := hpl
-    have harg := hx.arg11
+    have harg := SVal.proved.arg11 _ x hx
     cases r with
     | nil =>
       simpa [pArgs, valuesText] using ArgsLay.one _ _ tail harg htail
@@ -430,34 +754,26 @@ theorem argsLay_proved (L : Layout) (tail : Bytes) (htail : Tail tail) :
       have h2 := ArgsLay.cons _ _ (fixSep (L.sep i)) _ _ harg hs this
       simpa [pArgs, valuesText, e, List.append_assoc] using h2
 
-def pItems : Sentence → List Item
-  | [] => []
-  | x :: r => x.pitem :: pItems r
-
+/-- the values of a sentence are numbered 0, 1, …; the elements of an array 2k+5: both are
+    instances of "every value has proved agreement under some blanks" -/
 theorem denoteElems_proved (L : Layout) : ∀ (s : Sentence) (i : Nat) (prev : Option Cell), provedFrom L i s →
-    denoteElems false prev s = some (pItems s) := by
+    denoteElems false prev s = some (pitemsList s) := by
   intro s
   induction s with
-  | nil => intro i prev _; simp [denoteElems, pItems]
+  | nil => intro i prev _; simp [denoteElems, pitemsList]
   | cons x r ih =>
     intro i prev hpl
     obtain ⟨hx, hr⟩ := hpl
-    obtain ⟨_, p, hstep⟩ := hx.denote1
-    rw [hstep prev r, ih (i + 1) p hr]
-    simp [pItems]
-
-theorem flatList_pItems (L : Layout) : ∀ (s : Sentence) (i : Nat), provedFrom L i s → flatList (pItems s) = pCells s := by
-  intro s
-  induction s with
-  | nil => intro i _; rfl
-  | cons x r ih =>
-    intro i hpl
-    obtain ⟨hx, hr⟩ := hpl
-    obtain ⟨hf, _⟩ := hx.denote1
-    simp [pItems, pCells, flatList, hf, ih (i + 1) hr]
+    obtain ⟨p, hp⟩ := SVal.proved.denote1 _ x hx
+    have hrec := ih (i + 1) p hr
+    cases x with
+    | val t => simp [denoteElems, hp, pitemsList, hrec]
+    | rep n y => simp [denoteElems, hp, pitemsList, hrec]
+    | range _ _ => simp [SVal.proved] at hx
+    | arr es o => simp [denoteElems, hp, pitemsList, hrec]
 
 theorem cells_proved (L : Layout) (s : Sentence) (h : provedFrom L 0 s) : cells s = some (pCells s) := by
-  simp [cells, denote, denoteElems_proved L s 0 none h, flatList_pItems L s 0 h]
+  simp [cells, denote, denoteElems_proved L s 0 none h, flatList_pitems, pCells]
 
 theorem plain_proved (L : Layout) : ∀ (s : Sentence) (i : Nat), plainFrom L i s →
     provedFrom L i s ∧ pCells s = valCells s := by
@@ -468,7 +784,9 @@ theorem plain_proved (L : Layout) : ∀ (s : Sentence) (i : Nat), plainFrom L i 
     intro i h
     obtain ⟨⟨t, rfl, hwf, hp⟩, hr⟩ := h
     obtain ⟨h1, h2⟩ := ih (i + 1) hr
-    exact ⟨⟨⟨hwf, hp⟩, h1⟩, by simp [pCells, valCells, SVal.pcells, h2]⟩
+    refine ⟨⟨(proved_unfold_val _ t).mpr ⟨hwf, hp⟩, h1⟩, ?_⟩
+    simp only [pCells] at h2
+    simp [pCells, pcellsList, valCells, SVal.pcells, h2]
 
 theorem flatList_vals (cs : List Cell) : flatList (cs.map Item.val) = cs := by
   induction cs with
